@@ -59,6 +59,9 @@ pub struct Cfg {
 pub enum Ev {
     /// bytes delivered to the terminal, one `print_char` per byte
     Rx { hex: String },
+    /// characters (not bytes) delivered to the terminal: what a front end that decodes UTF-8 itself hands over;
+    /// code points that are not scalar values are skipped
+    RxWide { cps: Vec<u32> },
     /// line fault: the terminal's own replies (SendString) so far are fed back into its input
     Loopback,
     /// let decode thread `ticket` run to completion
